@@ -122,6 +122,27 @@ func main() {
 		cf.Close()
 	}
 
+	// byte counters
+	if *replay == "" {
+		bos := fr.RunByteCounters(*tier, *seed)
+		parts := make([]string, 0, len(bos))
+		bf, _ := os.Create(filepath.Join(*out, "bytes.jsonl"))
+		be := json.NewEncoder(bf)
+		for _, b := range bos {
+			parts = append(parts, b.Coq())
+			be.Encode(b)
+		}
+		bf.Close()
+		body := "From G12 Require Import Check.\nOpen Scope N_scope.\n" +
+			"Definition cases : list bobs := " + coqfmt.List("bobs", parts) + ".\n" +
+			"Definition M := Eval vm_compute in (bad bobs_model_ok cases).\nPrint M.\n" +
+			"Definition P := Eval vm_compute in (bad bobs_prop_ok cases).\nPrint P.\n"
+		if err := os.WriteFile(filepath.Join(*out, "bcases_0.v"), []byte(body), 0o644); err != nil {
+			fatal(err)
+		}
+		shards = append(shards, "bcases_0.v")
+	}
+
 	// many connections at once
 	var mixed []*fr.MixedObs
 	if *replay == "" {
